@@ -164,6 +164,7 @@ def run(check):
     quick = check.tier == 'quick'
     check.prove(extra_targets=('drv_flow',))
     check.prove_also('C08Flow')      # termination of the table evaluator on every ranked graph, with an explicit fuel bound
+    check.prove_also('Extract')      # extract_total, extract_ranked, extract_C08: the extractor never fails and its graphs are ranked
     S = flowgraph.load_supp()
     lint, assist, location = S['linter'].lint, S['assistant'].assist, S['assistant'].location
     root = '/tmp/verif-c08-%d' % os.getpid()
